@@ -169,7 +169,8 @@ def observe_wrapper(data, reads, empties=(), container=None, expected_format=Non
     except Exception as e:
         out.append('EXN:' + cls_name(e))
     flags = []
-    if b''.join(copies) != data[:src.pos]: flags.append('READ-BAD')
-    if kept and b''.join(bytes(x) for x in kept) != data[:src.pos]: flags.append('KEPT-BAD')
+    got = b''.join(copies)                 # what the reader was given (a read that raised delivered nothing)
+    if got != data[:len(got)]: flags.append('READ-BAD')
+    if kept and b''.join(bytes(x) for x in kept) != got: flags.append('KEPT-BAD')
     out.append(','.join(flags))
     return '|'.join(out)
